@@ -164,7 +164,8 @@ DEFAULTS = dict(entry=3, flags=0, scale=8.0, sw=2.0, ow=0.0, oh=0.0, fs=14, ff='
 
 ENTRY_NAMES = ['to_svg', 'to_svg_string_pretty', 'to_svg_string_compressed', 'to_svg_with_settings',
                'to_svg_with_override_size', 'CellBuffer::from + get_node_with_size twice (entry 5: first render at scale `ow` with the switches inverted)',
-               'CellBuffer converted, edited through DerefMut to hold the cells of a second document, converted again (entry 6: input = first U+001E second)']
+               'CellBuffer converted, edited through DerefMut to hold the cells of a second document, converted again (entry 6: input = first U+001E second)',
+               'CellBuffer::get_fragment_spans + CellBuffer::fragments_to_node (entry 7: canvas ow x oh, no legend css, rejected groups not drawn)']
 
 
 def _s(x):
